@@ -1,0 +1,9 @@
+//go:build !verif
+
+package rescache
+
+func verifGate(kind, id string) {}
+
+func verifNote(kind string, kv ...interface{}) {}
+
+func verifID(p interface{}) string { return "" }
